@@ -1,2 +1,20 @@
 // Included into ed25519-dalek as `crate::verif_hooks` when built with --cfg curve25519_dalek_verif.
 include!(concat!(env!("VERIF_HOOK_DIR"), "/../kani/ed_kani.rs"));
+
+// ---- C14: drop glue of the secret-holding types and the offsets of their secret fields (llsym memory model).
+// ed25519-dalek forbids unsafe code (which includes #[no_mangle]): the wrappers are ordinary functions, located in
+// the IR by their name inside the mangled symbol.
+#[cfg(feature = "zeroize")]
+pub mod drops {
+    use crate::SigningKey;
+    use crate::hazmat::ExpandedSecretKey;
+    #[inline(never)] pub fn vp_drop_signing_key(k: SigningKey) { drop(k) }
+    #[inline(never)] pub fn vp_drop_expanded_secret_key(k: ExpandedSecretKey) { drop(k) }
+    #[inline(never)] pub fn vp_layout_signing_key(out: &mut [usize; 3]) {
+        out[0] = core::mem::size_of::<SigningKey>(); out[1] = core::mem::offset_of!(SigningKey, secret_key); out[2] = 32;
+    }
+    #[inline(never)] pub fn vp_layout_expanded_secret_key(out: &mut [usize; 5]) {
+        out[0] = core::mem::size_of::<ExpandedSecretKey>(); out[1] = core::mem::offset_of!(ExpandedSecretKey, scalar); out[2] = 32;
+        out[3] = core::mem::offset_of!(ExpandedSecretKey, hash_prefix); out[4] = 32;
+    }
+}
